@@ -379,6 +379,7 @@ def run(ctx):
 
     indexspace.rule(ctx, "R8.6")
     candidate_order_rule(ctx)
+    inverse_map_rule(ctx, lib)
 
 
 def candidate_order_rule(ctx):
@@ -418,3 +419,153 @@ def candidate_order_rule(ctx):
         r.ok("_Get_nearby_elements returns np.unique(...) (ascending)")
     else:
         r.fail(f.qualname, "unsorted-candidates", f.file, f.lineno, "_Get_nearby_elements", "the candidate elements are returned in hash / discovery order: a point on a shared edge, face or node gets the reference coordinates of the last element visited but the nodal values of the highest-numbered one")
+
+
+# ---------------------------------------------------------------------------
+# R8.8  the inverse isoparametric map: residual of the iterative branch, closed form of the affine branch
+# ---------------------------------------------------------------------------
+
+
+def _free_names(fnode):
+    bound = {a.arg for a in fnode.args.args + fnode.args.kwonlyargs}
+    loads = set()
+    for n in ast.walk(fnode):
+        if isinstance(n, ast.Name):
+            if isinstance(n.ctx, ast.Store):
+                bound.add(n.id)
+            else:
+                loads.add(n.id)
+    return loads - bound
+
+
+def inverse_map_rule(ctx, lib):
+    """In `_Get_Mapping` the reference coordinates of a located point are xi_0 + (x - x_0) inv(F) when the element is
+    affine, otherwise the root of a residual handed to least_squares.  The residual must vanish exactly at the
+    reference point whose image is the query point, for EVERY straight-sided element (not only parallelograms): it is
+    interpreted on a generic rational straight-sided geometry at a symbolic reference point with xP = x(xi); the
+    affine closed form is interpreted on the same kind of geometry for simplices."""
+    from ..femchain import Chain
+
+    repo = ctx.repo
+    r = ctx.rule("R8.8", "inverse isoparametric map: the residual minimised for distorted elements vanishes identically at xP = x(xi) on general straight-sided elements; the affine closed form xi0 + (x - x0) inv(F) returns xi on simplices", min_instances=10)
+    f = repo.method(GE, "_Get_Mapping")
+    mi = f.module
+    # the function handed to least_squares
+    ls = [n for n in ast.walk(f.node) if isinstance(n, ast.Call) and (dotted(n.func) or "").split(".")[-1] == "least_squares"]
+    if not ls or not ls[0].args or not isinstance(ls[0].args[0], ast.Name):
+        raise AnalysisError("R8.8: the least_squares call of _Get_Mapping was not found")
+    res_name = ls[0].args[0].id
+    inner = [n for n in ast.walk(f.node) if isinstance(n, ast.FunctionDef) and n.name == res_name]
+    if not inner:
+        raise AnalysisError(f"R8.8: residual function {res_name} not found in _Get_Mapping")
+    inner = inner[0]
+    # the enclosing assignments the residual depends on (transitively), in source order, with their guards
+    parents = {}
+    for p in ast.walk(f.node):
+        for c in ast.iter_child_nodes(p):
+            parents[c] = p
+    assigns = {}
+    for n in ast.walk(f.node):
+        if isinstance(n, ast.Assign) and len(n.targets) == 1 and isinstance(n.targets[0], ast.Name):
+            # not inside the residual itself or another nested function
+            q, nested = n, False
+            while q in parents:
+                q = parents[q]
+                if isinstance(q, (ast.FunctionDef, ast.Lambda)) and q is not f.node:
+                    nested = True
+            if not nested:
+                assigns.setdefault(n.targets[0].id, []).append(n)
+    provided = {"self", "coordElem", "e", "coordinates_n", "nodesInElement", "np", "least_squares"}
+    need, order = set(_free_names(inner)), []
+    work = list(need)
+    seen = set()
+    while work:
+        nm = work.pop()
+        if nm in seen or nm in provided:
+            continue
+        seen.add(nm)
+        for a in assigns.get(nm, []):
+            order.append(a)
+            for x in ast.walk(a.value):
+                if isinstance(x, ast.Name) and x.id not in seen:
+                    work.append(x.id)
+    order = sorted(set(order), key=lambda a: a.lineno)
+
+    def guards(n):
+        out = []
+        q = n
+        while q in parents:
+            p = parents[q]
+            if isinstance(p, ast.If):
+                out.append((p.test, q in p.body))
+            q = p
+        return out
+
+    names2 = [n for n in lib.names((2, 3)) if lib.get(n).shape in ("TRI", "QUAD", "TETRA", "HEXA", "PRISM")]
+    for name in names2:
+        ed = lib.get(name)
+        if ed.order > 2 and ed.shape in ("HEXA", "PRISM"):
+            continue
+        r.instance(fn=f.qualname)
+        ch = Chain(lib, name, symbolic_vertices=False)
+        dim = ed.dim
+        I = ch.I
+        coordElem = XArray.from_nested(ch.node_coords)
+        env = {"self": ch.obj, "coordElem": coordElem, "e": 0}
+        try:
+            for a in order:
+                skip = False
+                for test, in_body in guards(a):
+                    try:
+                        tv = I.eval_expr(test, dict(env), f.file, mi)
+                        tv = bool(tv) if isinstance(tv, (bool, int)) else None
+                    except (Uninterpretable, AnalysisError, KeyError):
+                        tv = None
+                    if tv is not None and tv != in_body:
+                        skip = True
+                if skip:
+                    continue
+                try:
+                    env[a.targets[0].id] = I.eval_expr(a.value, dict(env), f.file, mi)
+                except (Uninterpretable, AnalysisError) as _e:
+                    import os
+                    if os.environ.get("DBG88"): print("skip", a.targets[0].id, _e)
+                    continue  # not needed on this path (e.g. Gauss-point data of the affine branch)
+            fn_clo = I.run_statements([inner], env, mi, [res_name], cls=f.cls)[0]
+            xi = XArray((dim,), [Poly.var(v) for v in ed.vars])
+            xP = XArray((dim,), ch.x_of_xi())
+            J = XArray.from_nested(fn_clo(xi, xP))
+        except XRaise as e:
+            r.fail(f.qualname, f"residual:{ed.shape}", f.file, inner.lineno, "_Get_Mapping", f"{name}: the residual raises {e}")
+            continue
+        bad = [k for k, v in enumerate(J.data) if not is_zero(v)]
+        if bad:
+            r.fail(f.qualname, f"residual:{ed.shape}", f.file, inner.lineno, "_Get_Mapping", f"{name}: on a general straight-sided element the residual handed to least_squares does not vanish at the point whose image is the query point (component {bad[0]}: {J.data[bad[0]]!r}): located points get wrong reference coordinates, so interpolated values are wrong on every non-parallelogram element")
+        else:
+            r.ok(f"{name}: residual(xi, x(xi)) == 0 identically on a generic straight-sided geometry")
+    # affine closed form on simplices
+    for name in [n for n in names2 if lib.get(n).shape in ("TRI", "TETRA")]:
+        ed = lib.get(name)
+        r.instance(fn=f.qualname)
+        ch = Chain(lib, name, symbolic_vertices=False, fe=True)
+        dim = ed.dim
+        invF = XArray.from_nested(ch.invF())
+        x = ch.x_of_xi()
+        x0 = [ch.node_coords[0][k] for k in range(dim)]
+        origin = ch.I.call_function(repo.lookup_method(ed.cls, "origin"), [], self_obj=ch.obj) if repo.lookup_method(ed.cls, "origin") is not None else None
+        if origin is None:
+            raise AnalysisError("R8.8: element origin not found")
+        origin = list(XArray.from_nested(origin).data)
+        if len(origin) == 1:
+            origin = origin * dim  # numpy broadcasting of [0]
+        bad = None
+        for j in range(dim):
+            tot = Poly.const(origin[j]) if not isinstance(origin[j], Poly) else origin[j]
+            for k in range(dim):
+                tot = tot + (x[k] - x0[k]) * invF[0, 0, k, j]
+            if not is_zero(tot - Poly.var(ed.vars[j])):
+                bad = (j, tot)
+        if bad:
+            r.fail(f.qualname, f"affine:{name}", f.file, f.lineno, "_Get_Mapping", f"{name}: xi0 + (x(xi) - x0) @ invF is {bad[1]!r} for component {bad[0]}, not the reference coordinate")
+        else:
+            r.ok(f"{name}: xi0 + (x(xi) - x0) @ inv(F) == xi")
